@@ -1748,8 +1748,14 @@ func (w *transformingWriter) Write(data []byte) (n int, err error) {
 
 func (w *transformingWriter) Close() error {
 	if w.expectingBytes == -1 {
-		if err := w.flushMessage(); err != nil {
-			w.rw.reportError(err)
+		// The body of a backend without envelopes is one message that ends
+		// with the body. If the RPC has already ended (for example because
+		// the body outgrew the size limit), what was buffered so far must
+		// not follow the end of the response.
+		if !w.rw.endWritten {
+			if err := w.flushMessage(); err != nil {
+				w.rw.reportError(err)
+			}
 		}
 	} else if w.buffer != nil && (w.buffer.Len() > 0 || (!w.writingEnvelope && w.expectingBytes > 0)) {
 		// Unfinished body! (That includes an envelope that announced a
